@@ -45,7 +45,8 @@ def sym_words(n, name, wellformed=True):
                 bits.append(B.atom("%s[%d]" % (name, g)))
             else:
                 bits.append(ZERO)
-        words.append(W(64, bits=bits))
+        from .absint import TRACK
+        words.append(W(64, bits=bits, term=("in", name, w) if TRACK[0] else None))
     return words
 
 
